@@ -4,6 +4,7 @@ import (
 	"fmt"
 	"go/token"
 	"go/types"
+	"math/big"
 	"strings"
 
 	"golang.org/x/tools/go/ssa"
@@ -344,7 +345,8 @@ func runPriQ(c *Ctx, prop string) {
 	tname := rel + "." + typ
 	methods := c.exportedMethods(rel, typ)
 	noInlineHeap := func(callee *ssa.Function, depth int) bool {
-		return depth <= 6 && c.fnInModule(callee) && recvNamedName(callee) != "EntryList"
+		// the heap callbacks stay opaque (container/heap drives them); EntryList.Len is just len(entries)
+		return depth <= 6 && c.fnInModule(callee) && (recvNamedName(callee) != "EntryList" || callee.Name() == "Len")
 	}
 	cfg := TraceConfig{Inline: noInlineHeap}
 	if prop == "C12" {
@@ -418,6 +420,10 @@ func runPriQ(c *Ctx, prop string) {
 								}) {
 									capOK = true
 								}
+								// any spelling of the same inequality: capacity - len - 1 >= 0
+								if capSym := t.initOfField(capacity); capSym != nil && factsImplyGE0(facts, lf(capSym).add(lf(lenSym), -1).add(lfConst(1), -1)) {
+									capOK = true
+								}
 							}
 						}
 						// the pushed wrapEntry: entry = caller's item, seq = curSeq just incremented under the lock
@@ -473,6 +479,10 @@ func runPriQ(c *Ctx, prop string) {
 									z, isz := f.Y.intConst()
 									return f.X.Key() == lenSym.Key() && isz && ((f.Op == token.NEQ && z == 0) || (f.Op == token.GTR && z == 0))
 								}) {
+									nonEmpty = true
+								}
+								// any spelling of the same inequality: len - 1 >= 0
+								if pos, _ := factsSign(facts, lf(lenSym)); pos {
 									nonEmpty = true
 								}
 							}
@@ -574,7 +584,7 @@ func checkPriSignal(c *Ctx, t *Trace, name, method string, signal, entries *type
 			if e.Kind == EvCall && e.callName() == "container/heap.Pop" {
 				// the decision to re-signal: len(entries) > 0 computed under the lock after the removal
 				facts := t.factsBefore(len(t.Events))
-				var lenAfter *Sym
+				var lenAfter, lenBefore *Sym
 				for j := i + 1; j < len(t.Events); j++ {
 					x := t.Events[j]
 					if acq, _, ok := lockOp(x); ok && !acq {
@@ -582,6 +592,34 @@ func checkPriSignal(c *Ctx, t *Trace, name, method string, signal, entries *type
 					}
 					if x.Kind == EvLoad && x.Addr.isFieldAddrOf(entries) {
 						lenAfter = &Sym{Kind: KOp, Name: "len", Args: []*Sym{x.Res}}
+					}
+				}
+				for j := i - 1; j >= 0; j-- {
+					x := t.Events[j]
+					if acq, _, ok := lockOp(x); ok && acq {
+						break
+					}
+					if x.Kind == EvLoad && x.Addr.isFieldAddrOf(entries) {
+						lenBefore = &Sym{Kind: KOp, Name: "len", Args: []*Sym{x.Res}}
+						break
+					}
+				}
+				// heap.Pop removes exactly one entry: the length read before it in the same critical section, less one,
+				// is the remaining length as well
+				if lenBefore != nil {
+					rem := lf(lenBefore).add(lfConst(1), -1)
+					pos, zero := factsSign(facts, rem)
+					if lenAfter != nil {
+						p2, z2 := factsSign(facts, lf(lenAfter))
+						pos, zero = pos || p2, zero || z2
+					}
+					if pos || zero {
+						if pos {
+							c.check(attempted(i+1), "C13.priq-signal", name+" re-signal", e.Pos, "", "items remain after Pop but the wait channel is not re-armed: the next consumer selecting on it sleeps beside a non-empty queue", c.witness(t, len(t.Events)-1)...)
+						} else {
+							c.holds("C13.priq-signal", name+" re-signal", e.Pos, "")
+						}
+						continue
 					}
 				}
 				if lenAfter == nil {
@@ -786,4 +824,57 @@ func checkPriHeapIface(c *Ctx, rel string) {
 		}
 		c.check(good, "C12.priq", "(EntryList).Len", fn.Pos(), "len(e)", "Len is not the number of entries: container/heap sifts over the wrong range")
 	}
+}
+
+// factsSign reads the branch facts as linear (in)equalities and reports whether one of them entails form >= 1 (pos)
+// or form <= 0 (zero). form is a length-like quantity known to be >= 0, so `form != 0` counts as pos and
+// `form == 0` as zero. Single-fact implication: sound, not complete.
+func factsSign(facts []Fact, form linForm) (pos, zero bool) {
+	if factsImplyGE0(facts, form.add(lfConst(1), -1)) {
+		pos = true
+	}
+	neg := form.scale(big.NewInt(-1))
+	for _, f := range facts {
+		d := lf(f.X).add(lf(f.Y), -1)
+		same := d.equal(form) || d.equal(neg)
+		switch f.Op {
+		case token.NEQ:
+			if same {
+				pos = true
+			}
+		case token.EQL:
+			if same {
+				zero = true
+			}
+		case token.LEQ: // d <= 0
+			if d.equal(form) {
+				zero = true
+			}
+		case token.GEQ: // d >= 0, d = -form
+			if d.equal(neg) {
+				zero = true
+			}
+		case token.LSS: // d < 0, d = form - 1 ... form < 1
+			if d.equal(form.add(lfConst(1), -1)) {
+				zero = true
+			}
+		case token.GTR: // d > 0, d = 1 - form
+			if d.equal(neg.add(lfConst(1), 1)) {
+				zero = true
+			}
+		}
+	}
+	return
+}
+
+// initOfField: the symbol of the first load of field f's initial value on this path (nil when never read)
+func (t *Trace) initOfField(f *types.Var) *Sym {
+	for _, e := range t.Events {
+		if e.Kind == EvLoad && e.Res != nil {
+			if _, ok := isInitOfField(e.Res, f); ok {
+				return e.Res
+			}
+		}
+	}
+	return nil
 }
